@@ -143,6 +143,22 @@ theorem classes_exact (cfg : Config) (hp : PlainPrint cfg) (env : Env) (ws : Lis
     fun t => List.map_congr_left (fun c _ => convAtom_documented cfg c)
   simp only [Generalises, this]
 
+/-- **C03 with `-e` and/or `-i` as well**: the same statement for every subset of the class options combined with non-ASCII
+escaping (no surrogate pairs) and the case-insensitive option; the test cases are the stored ones, and under `(?i)` an
+unconverted code point stands for its simple-case-folding orbit -/
+theorem classes_exact_all (cfg : Config) (hp : PlainPrintCI cfg) (env : Env) (ws : List Str) (st : Stages)
+    (h : regExpFrom cfg env ws = .ok st) (hseg : ∀ w ∈ storedCases cfg env ws, SegOK env w)
+    (hne : ∃ t ∈ storedCases cfg env ws, t ≠ []) (s : Str) (hs : ∀ c ∈ s, Scalar c) :
+    ∃ P, Spec.parse (fmtRegExp cfg st.finalAst) = some (⟨cfg.ci, false⟩, P) ∧
+      (Spec.fullMatch cfg.ci P s = true ↔
+        ∃ t ∈ storedCases cfg env ws, t ≠ [] ∧ atomsDen cfg.ci (t.map (docAtom cfg)) s) := by
+  obtain ⟨P, hP, hm⟩ := Grexv.classes_exact_ci cfg hp env ws st h hseg hne s hs
+  refine ⟨P, hP, ?_⟩
+  rw [hm]
+  have : ∀ t : Str, t.map (convAtom cfg) = t.map (docAtom cfg) :=
+    fun t => List.map_congr_left (fun c _ => convAtom_documented cfg c)
+  simp only [this]
+
 /-- in particular every non-empty test case is still accepted, whatever the class options -/
 theorem classes_sound (cfg : Config) (hp : PlainPrint cfg) (env : Env) (ws : List Str) (st : Stages)
     (h : regExpFrom cfg env ws = .ok st) (hseg : ∀ w ∈ ws, SegOK env w) (t : Str) (ht : t ∈ ws) (hne : t ≠ []) :
